@@ -3,7 +3,7 @@
    ioflo/aid/vectoring.py over Z*Z). *)
 From Coq Require Import ZArith QArith List Bool.
 Import ListNotations.
-Require Import V.Lib.C43_PyPrelude V.gen.Vectoring V.C44.Model V.C44.Proofs V.C44.ProofsQ V.C44.Bounded.
+Require Import V.Lib.C43_PyPrelude V.gen.Vectoring V.C44.Model V.C44.Proofs V.C44.ProofsQ.
 Require Import V.C44.Invariance V.C44.EdgeList V.C44.Triangle V.C44.Triangle2.
 
 (* ---------- unbounded: every point, every vertex list (simple or not) ---------- *)
@@ -116,20 +116,6 @@ Proof.
 Qed.
 Print Assumptions triangle_exact.
 
-(* ---------- bounded, exhaustive (the bound is part of the statement) ---------- *)
-(* For EVERY simple polygon with at most 5 vertices on the 4x4 integer grid (resp. at most 4
-   vertices on the 5x5 grid) and EVERY grid point, all predicates equal the independent exact
-   oracle of Model.v (on-boundary by collinearity + bounding box; strictly-inside by the even-odd
-   rule along a ray of slope K that meets no lattice vertex of the grid; simplicity by exact
-   segment-intersection tests); inside points have winding number +1 or -1. *)
-Theorem small_polygons_exact : forall (vs : list pt) (p : pt),
-  ((length vs <= 5)%nat -> Forall (in_grid 4) vs -> in_grid 4 p -> o_simple vs = true ->
-     agree 4 p vs = true) /\
-  ((length vs <= 4)%nat -> Forall (in_grid 5) vs -> in_grid 5 p -> o_simple vs = true ->
-     agree 5 p vs = true).
-Proof. exact (fun vs p => conj (small_polygons_4x4 vs p) (small_polygons_5x5 vs p)). Qed.
-Print Assumptions small_polygons_exact.
-
 (* non-vacuity *)
 Example c44_square :
   let sq := [(0,0); (2,0); (2,2); (0,2)]%Z in
@@ -138,6 +124,4 @@ Example c44_square :
   inside (0,0)%Z sq true = true /\ inside (0,0)%Z sq false = false /\ o_inside 4 (1,1)%Z sq = Some true.
 Proof. vm_compute. repeat split. Qed.
 Example c44_bowtie_not_simple : o_simple [(0,0); (2,2); (2,0); (0,2)]%Z = false.
-Proof. vm_compute. reflexivity. Qed.
-Example c44_counts : length (filter o_simple (all_lists (grid 4) 3)) = 3096%nat.
 Proof. vm_compute. reflexivity. Qed.
